@@ -365,6 +365,10 @@ mod multiplex {
                                             indices_to_remove.push(i);
                                             break;
                                         }
+                                        if upgraded_iface.is_some() {
+                                            // the connection is upgraded: what arrives from now on is not varlink
+                                            break;
+                                        }
                                     }
                                     Err(e) => {
                                         let err = e.kind();
